@@ -189,7 +189,7 @@ func (i *invoker) clientStream(
 		return nil, err
 	}
 
-	for _, msg := range ccr.RequestMessages {
+	for i, msg := range ccr.RequestMessages {
 		csr := &conformancev1.ClientStreamRequest{}
 		if err := msg.UnmarshalTo(csr); err != nil {
 			return nil, err
@@ -198,7 +198,11 @@ func (i *invoker) clientStream(
 		// Sleep for any specified delay
 		time.Sleep(time.Duration(ccr.RequestDelayMs) * time.Millisecond)
 
-		if err := stream.Send(csr); err != nil && errors.Is(err, io.EOF) {
+		if err := stream.Send(csr); err != nil {
+			// The call already ended (or was canceled or timed out): this
+			// request and all remaining ones are unsent. CloseAndRecv below
+			// returns the actual error.
+			result.NumUnsentRequests = int32(len(ccr.RequestMessages) - i)
 			break
 		}
 	}
@@ -263,16 +267,22 @@ func (i *invoker) bidiStream(
 
 	var protoErr *conformancev1.Error
 	totalRcvd := 0
-	for _, msg := range ccr.RequestMessages {
+	for i, msg := range ccr.RequestMessages {
 		bsr := &conformancev1.BidiStreamRequest{}
 		if err := msg.UnmarshalTo(bsr); err != nil {
 			// Return the error and nil result because this is an
 			// unmarshalling error unrelated to the RPC
 			return nil, err
 		}
-		if err := stream.Send(bsr); err != nil && errors.Is(err, io.EOF) {
-			// Call receive to get the error and convert it to a proto error
-			if _, recvErr := stream.Recv(); recvErr != nil {
+
+		// Sleep for any specified delay
+		time.Sleep(time.Duration(ccr.RequestDelayMs) * time.Millisecond)
+
+		if err := stream.Send(bsr); err != nil {
+			if !errors.Is(err, io.EOF) {
+				protoErr = grpcutil.ConvertGrpcToProtoError(err)
+			} else if _, recvErr := stream.Recv(); recvErr != nil {
+				// Call receive to get the error and convert it to a proto error
 				protoErr = grpcutil.ConvertGrpcToProtoError(recvErr)
 			} else {
 				// Just in case the receive call doesn't return the error,
@@ -280,7 +290,8 @@ func (i *invoker) bidiStream(
 				// happen, but is here as a safeguard.
 				protoErr = grpcutil.ConvertGrpcToProtoError(err)
 			}
-			// Break the send loop
+			// Break the send loop: this request and all remaining ones are unsent
+			result.NumUnsentRequests = int32(len(ccr.RequestMessages) - i)
 			break
 		}
 		if fullDuplex {
@@ -292,6 +303,8 @@ func (i *invoker) bidiStream(
 					// to a proto Error. If the error was an EOF, that just means
 					// reads are done.
 					protoErr = grpcutil.ConvertGrpcToProtoError(err)
+					// The requests after this one will not be sent
+					result.NumUnsentRequests = int32(len(ccr.RequestMessages) - i - 1)
 				}
 				// Reads are done either because we received an error or an EOF
 				// In either case, break the outer loop
